@@ -9,7 +9,7 @@
 From Coq Require Import List Arith ZArith Lia Bool.
 Import ListNotations.
 From MS Require Import Base.Str Vm.Model Lang.Syntax Lang.Eval Compile.Compile Compile.ExprBase.
-From MS Require Import Compile.StmtMach Compile.StmtRel Compile.StmtFrag Compile.StmtSim Compile.StmtFun.
+From MS Require Import Compile.StmtMach Compile.StmtRel Compile.StmtFrag Compile.StmtSim Compile.StmtFun Compile.StmtMod.
 
 Fixpoint nodupb (l : list str) : bool :=
   match l with [] => true | x :: t => negb (mem_str x t) && nodupb t end.
@@ -58,40 +58,34 @@ Proof.
   split; [now apply fn_okb_sound | now apply IH].
 Qed.
 
-(* the leading function definitions `f = fn(ps) { body }` of a module, and the rest *)
-Fixpoint split_defs (p : list stmt) : ftab * list stmt :=
-  match p with
-  | SAssign f (EFn ps body) :: t => let '(FT, main) := split_defs t in ((f, (ps, body)) :: FT, main)
-  | _ => ([], p)
+(* the top-level items of a module: function definitions `f = fn(ps) { body }` (anywhere between the statements) and
+   statements of the fragment; mod_okb mirrors StmtMod.mod_ok *)
+Fixpoint mod_okb (FT : ftab) (B : list str) (its : list mitem) : bool :=
+  match its with
+  | [] => true
+  | MDef d :: t => fn_okb FT d && negb (mem_str (fst d) (fnames FT)) && negb (mem_str (fst d) B) && mod_okb (FT ++ [d]) B t
+  | MStmt st :: t => ok_stmt FT None false B st && mod_okb FT (after B st) t
   end.
 
-Lemma split_defs_eq : forall p FT main, split_defs p = (FT, main) -> p = fmodule FT main.
+Lemma mod_okb_sound : forall its FT B, mod_okb FT B its = true -> mod_ok FT B its.
 Proof.
-  induction p as [|s t IH]; intros FT main H.
-  - cbn in H. inversion H; subst. reflexivity.
-  - cbn in H. destruct s; try (inversion H; subst; reflexivity).
-    destruct e; try (inversion H; subst; reflexivity).
-    destruct (split_defs t) as [FT' main'] eqn:E. inversion H; subst. unfold fmodule. cbn [map app def_stmt fst snd].
-    f_equal. apply (IH FT' main eq_refl).
+  induction its as [|[d|st] t IH]; intros FT B H; [exact Logic.I| |]; cbn [mod_okb mod_ok] in *.
+  - repeat (apply andb_true_iff in H; destruct H as [H ?]).
+    split; [now apply fn_okb_sound|]. split; [|split; [|now apply IH]].
+    + intros Hin. apply mem_str_iff in Hin. match goal with Hf : negb (mem_str (fst d) (fnames FT)) = true |- _ => rewrite Hin in Hf; discriminate end.
+    + intros Hin. apply mem_str_iff in Hin. match goal with Hf : negb (mem_str (fst d) B) = true |- _ => rewrite Hin in Hf; discriminate end.
+  - apply andb_true_iff in H as [H1 H2]. split; [exact H1|now apply IH].
 Qed.
 
 Definition in_fragment (path : str) (p : source) : bool :=
-  let '(FT, main) := split_defs p in
-  fns_okb [] FT && nodupb (fnames FT) && ok_block FT None false [] main &&
-  smallb (2 * length (fmodule_code path FT main) + 8).
+  let its := classify p in
+  mod_okb [] [] its && smallb (2 * length (tmodule_code path its) + 8).
 
 Theorem in_fragment_sound : forall path p, in_fragment path p = true ->
-  exists FT main, p = fmodule FT main /\ fns_ok [] FT /\ NoDup (fnames FT) /\
-                  ok_block FT None false [] main = true /\ small (2 * length (fmodule_code path FT main) + 8).
+  mod_ok [] [] (classify p) /\ small (2 * length (tmodule_code path (classify p)) + 8).
 Proof.
-  intros path p H. unfold in_fragment in H. destruct (split_defs p) as [FT main] eqn:E.
-  repeat (apply andb_true_iff in H; destruct H as [H ?]).
-  exists FT, main. repeat split.
-  - now apply split_defs_eq.
-  - now apply fns_okb_sound.
-  - now apply nodupb_sound.
-  - assumption.
-  - now apply smallb_sound.
+  intros path p H. unfold in_fragment in H. apply andb_true_iff in H as [H1 H2].
+  split; [now apply mod_okb_sound|now apply smallb_sound].
 Qed.
 
 (* C01 on every program the decidable test accepts *)
@@ -101,6 +95,6 @@ Theorem fragment_correct : forall path p, in_fragment path p = true ->
   exists fuel', fst (fst (execute fuel' (cprogram path p) (s_module_fn path))) = fst (run fuel p) /\
                 vm_outcome_ok (snd (run fuel p)) (snd (fst (execute fuel' (cprogram path p) (s_module_fn path)))).
 Proof.
-  intros path p H fuel Hf. destruct (in_fragment_sound path p H) as (FT & main & -> & HF & Hnd & Hok & Hsm).
-  exact (module_fun_correct path FT main HF Hnd Hok Hsm fuel Hf).
+  intros path p H fuel Hf. destruct (in_fragment_sound path p H) as (Hok & Hsm).
+  exact (module_top_correct path p Hok Hsm fuel Hf).
 Qed.
